@@ -69,7 +69,6 @@ Ltac fq := repeat match goal with
   end.
 Ltac cq := cbn; fq.
 
-Definition sumsp (l : list (Z * Q)) : Q := qsum (map snd l).
 
 Lemma qsum_app a b : qsum (a ++ b) == qsum a + qsum b.
 Proof. induction a as [|x a IH]; cq; [lra|]. rewrite IH. lra. Qed.
@@ -119,14 +118,26 @@ Proof.
       inversion H; subst. apply IH in G. unfold sumsp in *; cq. lra.
 Qed.
 
-Lemma split_group_sum : forall g d r,
-  split_group g = (d, r) -> sumsp d + r == gp_power g.
+Lemma split_raw_sum : forall g d r,
+  split_raw g = (d, r) -> sumsp d + r == gp_power g.
 Proof.
-  intros g d r H. unfold split_group in H.
+  intros g d r H. unfold split_raw in H.
   destruct (pg_invs (gp_src g)) as [|i [|j t]].
   - cbn in H. inversion H; subst. unfold sumsp; cq. lra.
   - inversion H; subst. unfold sumsp; cq. lra.
   - now apply split_loop_sum in H.
+Qed.
+
+Lemma sumsp_zeroed (d : list (Z * Q)) : sumsp (map (fun a => (fst a, 0)) d) == 0.
+Proof. induction d as [|a d IH]; unfold sumsp in *; cq; [lra|]. cbn in IH. fq. lra. Qed.
+
+Lemma split_group_sum : forall g d r,
+  split_group g = (d, r) -> sumsp d + r == gp_power g.
+Proof.
+  intros g d r H. unfold split_group in H. destruct (split_raw g) as [d0 r0] eqn:R.
+  destruct (guard_ok (sumsp d0) (gp_lower g)); inversion H; subst.
+  - now apply split_raw_sum.
+  - pose proof (sumsp_zeroed d0). lra.
 Qed.
 
 Lemma split_all_sum : forall l ds r,
@@ -186,4 +197,12 @@ Proof.
   - now apply core_sum in H.
   - destruct (core (map (prepare true powf) gs) (- p)) as [r0|] eqn:C; [|discriminate].
     inversion H; subst. apply core_sum in C. pose proof (res_dist_neg r0). cbn [neg_result res_rem]. lra.
+Qed.
+
+(* BatteryManager._distribute_power: the power reported as set is the power commanded *)
+Lemma request_reported powf gs p rr :
+  czero p = false -> run_request powf gs p = Some rr -> res_distributed rr == sumsp (res_dist (rr_res rr)).
+Proof.
+  intros Hz H. unfold run_request in H. destruct (distribute powf gs p) as [r|] eqn:D; [|discriminate].
+  inversion H; subst; cbn [rr_res res_distributed]. pose proof (distribute_sum _ _ _ _ Hz D). lra.
 Qed.
